@@ -282,9 +282,24 @@ func (x *Exec) applyContract(fr *Frame, st *State, con *FuncContract, fn *ssa.Fu
 	x.bindResult(vars, fn, rv)
 	post := &cenv{x: x, st: st, old: pre, vars: vars, fr: nil}
 	for _, cl := range con.Ensures {
-		x.assume(st, post.evalBool(cl.Expr))
+		x.assumeEnsures(st, post, cl, key)
 	}
 	return rv
+}
+
+// assumeEnsures assumes a callee postcondition; clauses that mention locals of the callee
+// (meaningful only inside its body) are skipped at call sites.
+func (x *Exec) assumeEnsures(st *State, post *cenv, cl *Clause, key string) {
+	defer func() {
+		if r := recover(); r != nil {
+			if us, ok := r.(unsupported); ok && strings.Contains(us.msg, "unknown identifier") {
+				x.note("postcondition of " + key + " mentioning its locals is not used at call sites: " + cl.Src)
+				return
+			}
+			panic(r)
+		}
+	}()
+	x.assume(st, post.evalBool(cl.Expr))
 }
 
 // countCall: ghost counter of calls of a function, per receiver/first-argument object.
